@@ -2,6 +2,7 @@ import Driver.Proto
 import Driver.Modelled
 import Model.Audit
 import Model.PolicyObj
+import Model.Store
 /-!
 # `vaktdrv`: one case per line in, one result per line out
 -/
@@ -69,6 +70,27 @@ def runPObj (o : PObj) : List Assign → List String
     | .ok o' => ("O " ++ showPObj o') :: runPObj o' rest
     | .error e => ("E " ++ showErr e ++ " " ++ showPObj o) :: runPObj o rest
 
+open Vakt.Store in
+def pStoreOp : P Op
+  | "add" :: ts => do
+    let (u, ts) ← pStr ts; let (p, ts) ← pNat ts; let (ok, ts) ← pBool ts; pure (.add u p ok, ts)
+  | "upd" :: ts => do
+    let (u, ts) ← pStr ts; let (p, ts) ← pNat ts; let (ok, ts) ← pBool ts; pure (.update u p ok, ts)
+  | "del" :: ts => do let (u, ts) ← pStr ts; pure (.delete u, ts)
+  | "get" :: ts => do let (u, ts) ← pStr ts; pure (.get u, ts)
+  | "all" :: l :: o :: ts => do let l ← l.toInt?; let o ← o.toInt?; pure (.getAll l o, ts)
+  | "retr" :: b :: ts => do let b ← b.toInt?; pure (.retrieveAll b, ts)
+  | _ => none
+
+open Vakt.Store in
+def showSt (l : St) : String := ",".intercalate (l.map fun (u, p) => showStr u ++ ":" ++ toString p)
+
+open Vakt.Store in
+def showOut : Out → String
+  | .done => "done" | .existsErr => "exists" | .rejected => "rejected" | .valueError => "valueerror"
+  | .pol none => "pol -" | .pol (some p) => "pol " ++ toString p
+  | .pols l => "pols " ++ showSt l
+
 def handle (toks : List String) : Option String :=
   match toks with
   | "ECHO" :: "val" :: ts => do let v ← full (pVal ts); pure ("ECHO val " ++ showVal v)
@@ -122,6 +144,12 @@ def handle (toks : List String) : Option String :=
       | "count" => some MsgCls.count | _ => none)
     if ps.any (fun p => (PyVal.pyStr p.uid).isNone || (PyVal.pyStr p.description).isNone) then pure "unmodelled"
     else pure ("ok " ++ showStr (renderMsg c ps))
+  | "STORE" :: ts => do
+    let (sorted, ts) ← pBool ts
+    let (eager, ts) ← pBool ts
+    let ops ← full (pCounted pStoreOp ts)
+    let r := Vakt.Store.run ⟨sorted, eager⟩ [] ops
+    pure (" | ".intercalate (r.2.map showOut) ++ " || " ++ showSt r.1)
   | "POBJ" :: ts => do
     let (ctor, ts) ← pCounted pAssign ts
     let steps ← full (pCounted pAssign ts)
